@@ -4,6 +4,7 @@ package main
 import (
 	"bytes"
 	"fmt"
+	"io"
 	"sync/atomic"
 
 	"github.com/datastax/go-cassandra-native-protocol/client"
@@ -22,8 +23,45 @@ import (
 type format struct {
 	name   string
 	max    int
-	comp   func(src *bytes.Buffer, dst *bytes.Buffer) error
-	decomp func(src *bytes.Buffer, dst *bytes.Buffer) error
+	comp   func(src io.Reader, dst *bytes.Buffer) error
+	decomp func(src io.Reader, dst *bytes.Buffer) error
+}
+
+// the source a compressor reads from is part of the environment: the library special-cases some
+// reader types. Every (de)compression is run from each kind; "mid-reader" is a bytes.Reader whose
+// first bytes were consumed by an earlier read (as after reading a header from the same stream).
+type plainReader struct{ r io.Reader }
+
+func (p plainReader) Read(b []byte) (int, error) { return p.r.Read(b) }
+
+var srcKinds = []struct {
+	name string
+	mk   func(b []byte) io.Reader
+}{
+	{"buffer", func(b []byte) io.Reader { return bytes.NewBuffer(append([]byte{}, b...)) }},
+	{"reader", func(b []byte) io.Reader { return bytes.NewReader(append([]byte{}, b...)) }},
+	{"mid-reader", func(b []byte) io.Reader {
+		r := bytes.NewReader(append([]byte{0xde, 0xad, 0xbe, 0xef, 0x01}, b...))
+		_, _ = io.ReadFull(r, make([]byte, 5))
+		return r
+	}},
+	{"plain", func(b []byte) io.Reader { return plainReader{bytes.NewReader(append([]byte{}, b...))} }},
+	{"limited", func(b []byte) io.Reader {
+		return io.LimitReader(bytes.NewReader(append(append([]byte{}, b...), 0x55, 0x55, 0x55)), int64(len(b)))
+	}},
+}
+
+// lz4cause: see fcheck.LZ4Cause; the length-prefixed format carries 4 bytes before the block.
+func lz4cause(format string, in, compressed []byte) string {
+	switch format {
+	case "lz4-raw":
+		return fcheck.LZ4Cause(in, compressed)
+	case "lz4-with-length":
+		if len(compressed) >= 4 {
+			return fcheck.LZ4Cause(in, compressed[4:])
+		}
+	}
+	return ""
 }
 
 func main() {
@@ -35,9 +73,9 @@ func main() {
 		maxBody = 4 << 20
 	}
 	formats := []format{
-		{"lz4-raw", 131071, func(s, d *bytes.Buffer) error { return l4.Compress(s, d) }, func(s, d *bytes.Buffer) error { return l4.Decompress(s, d) }},
-		{"lz4-with-length", maxBody, func(s, d *bytes.Buffer) error { return l4.CompressWithLength(s, d) }, func(s, d *bytes.Buffer) error { return l4.DecompressWithLength(s, d) }},
-		{"snappy-with-length", maxBody, func(s, d *bytes.Buffer) error { return sn.CompressWithLength(s, d) }, func(s, d *bytes.Buffer) error { return sn.DecompressWithLength(s, d) }},
+		{"lz4-raw", 131071, func(s io.Reader, d *bytes.Buffer) error { return l4.Compress(s, d) }, func(s io.Reader, d *bytes.Buffer) error { return l4.Decompress(s, d) }},
+		{"lz4-with-length", maxBody, func(s io.Reader, d *bytes.Buffer) error { return l4.CompressWithLength(s, d) }, func(s io.Reader, d *bytes.Buffer) error { return l4.DecompressWithLength(s, d) }},
+		{"snappy-with-length", maxBody, func(s io.Reader, d *bytes.Buffer) error { return sn.CompressWithLength(s, d) }, func(s io.Reader, d *bytes.Buffer) error { return sn.DecompressWithLength(s, d) }},
 	}
 	var lens []int
 	limit := 4096
@@ -73,38 +111,69 @@ func main() {
 			}
 			atomic.AddInt64(&evals, 1)
 			keys := map[string]string{"format": f.name}
-			comp := &bytes.Buffer{}
-			var err error
-			if pv, site := vlib.Catch(func() { err = f.comp(bytes.NewBuffer(append([]byte{}, in...)), comp) }); pv != nil {
-				keys["kind"], keys["site"] = "compress-panic", site
-				c.Violation(keys, fmt.Sprintf("%s: compressing %d bytes (%s) panics: %v", f.name, j.n, j.class, pv), j)
-				continue
-			}
-			if err != nil {
-				keys["kind"] = "compress-error"
-				c.Violation(keys, fmt.Sprintf("%s: compressing %d bytes (%s) fails: %v", f.name, j.n, j.class, err), j)
-				continue
-			}
-			if comp.Len() > 0 {
-				if r := float64(j.n) / float64(comp.Len()); r > ratios[i] {
-					ratios[i] = r
+			var first []byte
+			bad := false
+			for _, ck := range srcKinds {
+				comp := &bytes.Buffer{}
+				var err error
+				keys["source"] = ck.name
+				if pv, site := vlib.Catch(func() { err = f.comp(ck.mk(in), comp) }); pv != nil {
+					keys["kind"], keys["site"] = "compress-panic", site
+					c.Violation(keys, fmt.Sprintf("%s: compressing %d bytes (%s) from a %s panics: %v", f.name, j.n, j.class, ck.name, pv), j)
+					bad = true
+					break
+				}
+				if err != nil {
+					keys["kind"] = "compress-error"
+					c.Violation(keys, fmt.Sprintf("%s: compressing %d bytes (%s) from a %s fails: %v", f.name, j.n, j.class, ck.name, err), j)
+					bad = true
+					break
+				}
+				if comp.Len() > 0 {
+					if r := float64(j.n) / float64(comp.Len()); r > ratios[i] {
+						ratios[i] = r
+					}
+				}
+				compressed := append([]byte{}, comp.Bytes()...)
+				if first == nil {
+					first = compressed
+				}
+				for _, dk := range srcKinds {
+					if ck.name != "buffer" && dk.name != "buffer" {
+						continue // every source kind on each side, not the full product
+					}
+					out := &bytes.Buffer{}
+					keys["source"] = ck.name + ">" + dk.name
+					if pv, site := vlib.Catch(func() { err = f.decomp(dk.mk(compressed), out) }); pv != nil {
+						keys["kind"], keys["site"] = "decompress-panic", site
+						c.Violation(keys, fmt.Sprintf("%s: decompressing its own output for %d bytes (%s) from a %s panics: %v", f.name, j.n, j.class, dk.name, pv), j)
+						bad = true
+						break
+					}
+					if cause := lz4cause(f.name, in, compressed); cause != "" && (err != nil || !bytes.Equal(out.Bytes(), in)) {
+						c.Violation(map[string]string{"kind": "lz4-corrupt-block", "cause": cause}, fmt.Sprintf("%s: the block emitted for %d bytes (%s) does not reproduce the input (independent block reader); decompress err=%v", f.name, j.n, j.class, err), j)
+						bad = true
+						break
+					}
+					if err != nil {
+						keys["kind"], keys["ratio"] = "decompress-error", ratioClass(j.n, comp.Len())
+						c.Violation(keys, fmt.Sprintf("%s: %d bytes (%s) compress to %d bytes (ratio %.1f) which then fail to decompress from a %s: %v", f.name, j.n, j.class, comp.Len(), float64(j.n)/float64(comp.Len()), dk.name, err), j)
+						bad = true
+						break
+					}
+					if !bytes.Equal(out.Bytes(), in) {
+						keys["kind"] = "content-mismatch"
+						c.Violation(keys, fmt.Sprintf("%s: %d bytes (%s) do not survive compress (from a %s) / decompress (from a %s): got %d bytes", f.name, j.n, j.class, ck.name, dk.name, out.Len()), j)
+						bad = true
+						break
+					}
+					atomic.AddInt64(&evals, 1)
+				}
+				if bad {
+					break
 				}
 			}
-			out := &bytes.Buffer{}
-			compressed := append([]byte{}, comp.Bytes()...)
-			if pv, site := vlib.Catch(func() { err = f.decomp(bytes.NewBuffer(compressed), out) }); pv != nil {
-				keys["kind"], keys["site"] = "decompress-panic", site
-				c.Violation(keys, fmt.Sprintf("%s: decompressing its own output for %d bytes (%s) panics: %v", f.name, j.n, j.class, pv), j)
-				continue
-			}
-			if err != nil {
-				keys["kind"], keys["ratio"] = "decompress-error", ratioClass(j.n, comp.Len())
-				c.Violation(keys, fmt.Sprintf("%s: %d bytes (%s) compress to %d bytes (ratio %.1f) which then fail to decompress: %v", f.name, j.n, j.class, comp.Len(), float64(j.n)/float64(comp.Len()), err), j)
-				continue
-			}
-			if !bytes.Equal(out.Bytes(), in) {
-				keys["kind"] = "content-mismatch"
-				c.Violation(keys, fmt.Sprintf("%s: %d bytes (%s) do not survive compress/decompress (got %d bytes)", f.name, j.n, j.class, out.Len()), j)
+			if bad {
 				continue
 			}
 			atomic.AddInt64(&ok, 1)
@@ -123,7 +192,7 @@ func main() {
 				continue
 			}
 			for _, n := range []int{0, 1, 100, 300, 5000, 70000} {
-				for _, class := range []string{"zeros", "p7", "text", "random"} {
+				for _, class := range gen.PayloadClasses {
 					evals++
 					msg := &message.AuthResponse{Token: gen.Payload(n, class)}
 					f1 := frame.NewFrame(v, 1, msg)
@@ -140,6 +209,23 @@ func main() {
 					}
 					d1, e1 := codec.DecodeFrame(b1)
 					d2, e2 := codec.DecodeFrame(b2)
+					if comp == primitive.CompressionLz4 && (e2 != nil || gen.Equal(d1, d2, map[string]bool{"Header.BodyLength": true, "Header.Flags": true}) != "") {
+						plain := append([]byte{}, b1.Bytes()...) // b1 was consumed by DecodeFrame: re-encode
+						pb := &bytes.Buffer{}
+						_ = codec.EncodeFrame(frame.NewFrame(v, 1, gen.Clone(msg).(*message.AuthResponse)), pb)
+						hl := 9
+						if v == gen.V2 {
+							hl = 8
+						}
+						body := pb.Bytes()[hl:]
+						blk := &bytes.Buffer{}
+						_ = l4.Compress(bytes.NewBuffer(append([]byte{}, body...)), blk)
+						_ = plain
+						if cause := fcheck.LZ4Cause(body, blk.Bytes()); cause != "" {
+							c.Violation(map[string]string{"kind": "lz4-corrupt-block", "cause": cause}, fmt.Sprintf("frame with a %d-byte %s body: the LZ4 block of the body does not reproduce it; compressed decode err=%v", n, class, e2), n)
+							continue
+						}
+					}
 					if e1 != nil || e2 != nil {
 						c.Violation(map[string]string{"kind": "frame-decode-error", "compression": string(comp)}, fmt.Sprintf("frame with a %d-byte %s body: uncompressed decode err=%v, compressed decode err=%v", n, class, e1, e2), n)
 						continue
@@ -166,6 +252,14 @@ func main() {
 					continue
 				}
 				s, err := codec.DecodeSegment(buf)
+				if k == 1 && (err != nil || !bytes.Equal(s.Payload.UncompressedData, p)) {
+					blk := &bytes.Buffer{}
+					_ = l4.Compress(bytes.NewBuffer(append([]byte{}, p...)), blk)
+					if cause := fcheck.LZ4Cause(p, blk.Bytes()); cause != "" {
+						c.Violation(map[string]string{"kind": "lz4-corrupt-block", "cause": cause}, fmt.Sprintf("segment of %d bytes (%s): the block emitted by the compressor does not reproduce the payload; decode err=%v", n, class, err), n)
+						continue
+					}
+				}
 				if err != nil {
 					c.Violation(map[string]string{"kind": "segment-decode-error", "lz4": fmt.Sprint(k == 1)}, fmt.Sprintf("segment of %d bytes (%s), lz4=%v: %v", n, class, k == 1, err), n)
 					continue
